@@ -54,6 +54,7 @@ fn main() {
         "C14" => props::c14::main(&args),
         "C15" => props::c15::main(&args),
         "C16" => props::c16::main(&args),
+        "C19" => props::c19::main(&args),
         "C20" => props::c20::main(&args),
         "C17" => props::c17::main(&args),
         "C18" => props::c18::main(&args),
